@@ -1985,6 +1985,11 @@ class C18(TraceCheck):
             plan["body"].insert(rng.randrange(0, k + 1), {"s": "caught_exit", "arg": pre})
         case = {"plan": plan, "mode": mode, "arg": arg, "k": k, "autoprove": rng.random() < 0.8,
                 "stale": rng.random() < 0.3 and backend != "qaptools", "pre": pre}
+        if rng.random() < 0.1:
+            # surroundings: the script changes its working directory somewhere before it ends
+            plan["body"].insert(rng.randrange(0, k + 1), {"s": "chdir"})
+            case["chdir"] = True
+            case["stale"] = False
         if rng.random() < 0.25:
             # the application installed its own sys.excepthook before importing the library: well-behaved, ending
             # in SystemExit(3), or failing itself
@@ -2015,10 +2020,17 @@ class C18(TraceCheck):
         ev = r["events"]
         if not ev or ev[0].get("ev") != "imported":
             raise W.HarnessError("child did not import pysnark: rc=%r stderr=%s" % (r["rc"], r["stderr"][-500:]))
+        if case.get("chdir"):
+            # artefacts may be in either directory: judged by file name
+            r["before"] = {k.split("/")[-1]: v for k, v in sorted(r["before"].items())}
+            r["after"] = {k.split("/")[-1]: v for k, v in sorted(r["after"].items())}
         proves = [e for e in ev if e["ev"] == "prove"]
         terms = [e for e in ev if e["ev"] == "term"]
         mode, arg = case["mode"], case["arg"]
         site = {"mode": mode, "arg": arg, "autoprove": case["autoprove"]}
+        if case.get("chdir"):
+            site["chdir"] = True
+            site["backend"] = backend
         if case.get("pre") is not None:
             site["pre"] = "caught_exit:" + case["pre"]
         if case.get("operation") is not None:
@@ -2085,6 +2097,8 @@ class C18(TraceCheck):
             faults["operation_set"] = 1
         if case.get("prehook"):
             faults["app_excepthook:" + case["prehook"]] = 1
+        if case.get("chdir"):
+            faults["chdir"] = 1
         if case["stale"]:
             faults["stale"] = 1
         probes = {"status_%s" % ("0" if rc == 0 else "nonzero"): 1, "prove_ran": len(proves)}
